@@ -17,6 +17,7 @@ src: linked_list.c, objpair.c, obj.c
 tier: B
 backend: cadical
 unwind: 8
+unwind_thorough: 12
 bound: map size <= 4, all key and value keys
 funcs: spif_linked_list_set, spif_linked_list_insert, spif_objpair_new_from_both, spif_objpair_init_from_both, spif_objpair_comp, spif_objpair_set_value
 */
@@ -27,6 +28,7 @@ src: linked_list.c, objpair.c, obj.c
 tier: B
 backend: cadical
 unwind: 8
+unwind_thorough: 12
 bound: map size <= 4, all key and value keys
 funcs: spif_linked_list_map_get, spif_linked_list_has_key, spif_linked_list_has_value, spif_linked_list_count, spif_objpair_comp
 */
@@ -37,6 +39,7 @@ src: linked_list.c, objpair.c, obj.c
 tier: B
 backend: cadical
 unwind: 8
+unwind_thorough: 12
 bound: map size <= 4, all key and value keys (incl. smallest / largest / only key)
 funcs: spif_linked_list_map_remove, spif_objpair_comp
 */
@@ -47,6 +50,7 @@ src: linked_list.c, objpair.c, obj.c
 tier: B
 backend: cadical
 unwind: 8
+unwind_thorough: 12
 bound: map size <= 4, all key and value keys; result list NULL or an empty linked_list
 funcs: spif_linked_list_get_keys, spif_linked_list_get_values
 */
@@ -57,6 +61,7 @@ src: linked_list.c, objpair.c, obj.c
 tier: B
 backend: cadical
 unwind: 8
+unwind_thorough: 12
 bound: map size <= 4, all key and value keys; result list NULL or an empty linked_list
 funcs: spif_linked_list_get_pairs, spif_objpair_dup
 */
@@ -67,6 +72,7 @@ src: linked_list.c, objpair.c, obj.c
 tier: B
 backend: cadical
 unwind: 8
+unwind_thorough: 12
 bound: map size <= 4, all key and value keys
 funcs: spif_linked_list_iterator, spif_linked_list_iterator_has_next, spif_linked_list_iterator_next
 */
